@@ -175,10 +175,21 @@ def trace_validation(rep, wd, tier, seed):
     n = 1500 if tier == 'thorough' else 150
     traces = []
     allnums = []
-    for tid in range(n):
+    # numbers whose digit sum is extreme (runs of one digit, nearly all nines / eights / zeros at 20..40 digits): the
+    # Luhn total of a 40-digit number reaches 360, of a random one about 180
+    extremes = [d * k for d in '0589' for k in (1, 19, 20, 28, 29, 30, 33, 39, 40)]
+    for i in range(36):
+        r = drv.rng(seed, 'c15x', i)
+        k = r.choice((24, 28, 29, 31, 36, 40))
+        base = r.choice('99998')
+        extremes.append(''.join(base if r.random() < 0.9 else r.choice('0123456789') for _ in range(k)))
+    for tid in range(n + len(extremes)):
         r = drv.rng(seed, 'c15', tid)
         k = r.choice((1, 2, 7, 12, 15, 16, 18, 19, 25, 40))
         digits = ''.join(r.choice('0123456789') for _ in range(k))
+        if tid >= n:
+            digits = extremes[tid - n]
+            k = len(digits)
         shown = digits
         if tid % 3 == 0:      # separators are dropped by the computation
             shown = ' '.join(digits[i:i + 4] for i in range(0, k, 4)) if tid % 2 else '-'.join(digits[i:i + 4] for i in range(0, k, 4))
